@@ -26,6 +26,7 @@ struct Call {                                 // state of one call under test (k
     std::atomic<bool> over{false};
     std::mutex m; std::vector<int> thrown;
     std::atomic<long> objs{0};                // library-made copies of user objects currently alive
+    int prelude = 0;                          // what a plain body does around its throw point (see body_throw)
     Call() { for (auto& c : counter) c.store(0); }
 };
 static std::atomic<int> g_exc_id{1};
@@ -39,6 +40,23 @@ static void maybe_throw(Call* c, int site) {
         c->thrown_n.fetch_add(1);
         throw Boom{ id };
     }
+}
+// Throw point of a plain body. In half of the calls the body first re-enters the scheduler in a way that makes the library swap the
+// executing task's context / isolation in place and restore it afterwards - task_arena::execute on the arena the task already runs
+// in (directly or through attach), a small flow graph run to wait_for_all, isolate - or throws from inside such a nested execute.
+// The exception must still be attributed to the task's own group.
+static tbb::task_arena* g_main_arena = nullptr;
+static const char* prelude_name[] = { "none", "execute(same arena) then throw", "attach.execute then throw", "graph.wait_for_all then throw", "isolate then throw", "throw inside execute(same arena)" };
+static void body_throw(Call* c) {
+    switch (c->prelude) {
+    case 1: g_main_arena->execute([] { spin_iters(30); }); break;
+    case 2: { tbb::task_arena here{ tbb::task_arena::attach{} }; here.execute([] { spin_iters(30); }); break; }
+    case 3: { tbb::flow::graph g; std::atomic<int> n{0}; tbb::flow::function_node<int, int> f(g, tbb::flow::unlimited, [&n](int v) { n++; return v; }); f.try_put(1); f.try_put(2); g.wait_for_all(); break; }
+    case 4: tbb::this_task_arena::isolate([] { spin_iters(30); }); break;
+    case 5: g_main_arena->execute([c] { maybe_throw(c, S_BODY); }); return;
+    default: break;
+    }
+    maybe_throw(c, S_BODY);
 }
 struct Live {                                 // RAII: a body of the call is running
     Call* c;
@@ -76,6 +94,7 @@ static Scen g_cur; static std::mutex g_cur_m; static std::atomic<bool> g_in_call
 // run one call, classify the outcome
 template <class F>
 static bool attempt(Result& R, Call* c, const Scen& sc, F&& call, bool expect_status_only = false) {
+    c->prelude = trng().chance(1, 2) ? 0 : 1 + (int)trng().below(5);
     { std::lock_guard<std::mutex> l(g_cur_m); g_cur = sc; }
     set_crash_context(sc.construct + "." + site_name[sc.site]);
     g_in_call = true;
@@ -88,7 +107,7 @@ static bool attempt(Result& R, Call* c, const Scen& sc, F&& call, bool expect_st
     int live_now = c->live.load();
     c->over.store(true, std::memory_order_release);
     std::string key_base = "c03." + sc.construct + "." + site_name[sc.site] + ".";
-    std::string ctx = "construct " + sc.construct + ", throwing site " + site_name[sc.site] + ", " + std::to_string(c->thrown_n.load()) + " exceptions thrown, params " + sc.params;
+    std::string ctx = "construct " + sc.construct + ", throwing site " + site_name[sc.site] + ", " + std::to_string(c->thrown_n.load()) + " exceptions thrown, params " + sc.params + ", plain bodies: " + prelude_name[c->prelude];
     bool ok = true;
     auto viol = [&](const char* k, const std::string& d) { ok = false; Json j; j.obj(); j.kv("construct", sc.construct); j.kv("site", site_name[sc.site]); j.kv("params", sc.params); j.end_obj(); R.violation(key_base + k, d + " [" + ctx + "]", j.s); };
     int nthrown = c->thrown_n.load();
@@ -105,6 +124,7 @@ static bool attempt(Result& R, Call* c, const Scen& sc, F&& call, bool expect_st
     R.stat("calls." + sc.construct);
     if (nthrown) { R.stat("calls_with_throw"); R.stat("throws." + std::string(site_name[sc.site]), nthrown); }
     if (nthrown >= 2) R.stat("calls_with_concurrent_throws");
+    if (nthrown && c->prelude && sc.site == S_BODY) R.stat(std::string("throws_after_context_swap.") + prelude_name[c->prelude]);
     if (nthrown) { R.nontrivial++; R.signature(mix(std::hash<std::string>{}(sc.construct + site_name[sc.site] + sc.params), mix(nthrown, std::min(c->bodies.load(), 40)))); }
     if (nthrown && ok && R.want_sample()) {
         Json j; j.obj(); j.kv("construct", sc.construct); j.kv("throwing_site", site_name[sc.site]); j.kv("params", sc.params); j.kv("exceptions_thrown", nthrown);
@@ -134,7 +154,7 @@ static void c_pfor(Result& R, Rng& r, int site, int nthrows) {
     Scen sc{ "pfor", site, nthrows, "n=" + std::to_string(n) + ",grain=" + std::to_string(g) + ",part=" + std::to_string(part) };
     attempt(R, c, sc, [&] {
         TRange range(0, n, g, c);
-        auto body = [c, w](const TRange& rg) { Live l(c); maybe_throw(c, S_BODY); work(w * (unsigned)(rg.e - rg.b) / 8 + 10); };
+        auto body = [c, w](const TRange& rg) { Live l(c); body_throw(c); work(w * (unsigned)(rg.e - rg.b) / 8 + 10); };
         switch (part) { case 0: tbb::parallel_for(range, body, tbb::simple_partitioner()); break; case 1: tbb::parallel_for(range, body, tbb::auto_partitioner()); break;
                         case 2: tbb::parallel_for(range, body, tbb::static_partitioner()); break; default: tbb::parallel_for(range, body, g_ap); }
     });
@@ -145,7 +165,7 @@ static void c_reduce(Result& R, Rng& r, int site, int nthrows, bool det, bool fn
     Scen sc{ std::string(det ? "dreduce" : "reduce") + (fn ? "_fn" : ""), site, nthrows, "n=" + std::to_string(n) + ",grain=" + std::to_string(g) };
     attempt(R, c, sc, [&] {
         if (fn) {
-            auto body = [c, w](const tbb::blocked_range<int>& rg, long acc) { Live l(c); maybe_throw(c, S_BODY); for (int i = rg.begin(); i < rg.end(); ++i) acc += i; work(w); return acc; };
+            auto body = [c, w](const tbb::blocked_range<int>& rg, long acc) { Live l(c); body_throw(c); for (int i = rg.begin(); i < rg.end(); ++i) acc += i; work(w); return acc; };
             auto red = [c](long a, long b) { maybe_throw(c, S_JOIN); return a + b; };
             tbb::blocked_range<int> range(0, n, g);
             long res = det ? tbb::parallel_deterministic_reduce(range, 0L, body, red) : tbb::parallel_reduce(range, 0L, body, red);
@@ -190,7 +210,7 @@ static void c_foreach(Result& R, Rng& r, int site, int nthrows) {
     attempt(R, c, sc, [&] {
         tbb::parallel_for_each(items.begin(), items.end(), [c, w](int v, tbb::feeder<int>& f) {
             Live l(c);
-            if (v >= 0) { maybe_throw(c, S_BODY); if (v % 2 == 0) f.add(-v - 1); } else maybe_throw(c, S_FEED);
+            if (v >= 0) { body_throw(c); if (v % 2 == 0) f.add(-v - 1); } else maybe_throw(c, S_FEED);
             work(w);
         });
     });
@@ -200,8 +220,8 @@ static void c_invoke(Result& R, Rng& r, int site, int nthrows) {
     c->fire[site] = pick_positions(r, 40, nthrows);
     Scen sc{ "invoke", site, nthrows, "" };
     attempt(R, c, sc, [&] {
-        auto f = [c] { Live l(c); maybe_throw(c, S_BODY); work(300); };
-        auto nested = [c] { Live l(c); maybe_throw(c, S_BODY); tbb::parallel_for(0, 40, [c](int) { Live l2(c); maybe_throw(c, S_BODY); work(100); }); };
+        auto f = [c] { Live l(c); body_throw(c); work(300); };
+        auto nested = [c] { Live l(c); body_throw(c); tbb::parallel_for(0, 40, [c](int) { Live l2(c); body_throw(c); work(100); }); };
         tbb::parallel_invoke(f, f, nested, f);
     });
 }
@@ -233,8 +253,8 @@ static void c_group(Result& R, Rng& r, int site, int nthrows) {
     bool ok = attempt(R, c, sc, [&] {
         for (int i = 0; i < n; i++) tg.run([c, nested] {
             Live l(c);
-            if (nested) { tbb::task_group inner; for (int j = 0; j < 3; j++) inner.run([c] { Live l2(c); maybe_throw(c, S_BODY); work(150); }); inner.wait(); }
-            else { maybe_throw(c, S_BODY); work(200); }
+            if (nested) { tbb::task_group inner; for (int j = 0; j < 3; j++) inner.run([c] { Live l2(c); body_throw(c); work(150); }); inner.wait(); }
+            else { body_throw(c); work(200); }
         });
         if (r.chance(1, 3)) tg.run_and_wait([c] { Live l(c); work(100); }); else tg.wait();
     });
@@ -295,6 +315,7 @@ int main(int argc, char** argv) {
     Rng top(mix(R.seed, 0xC03));
     tbb::global_control gc(tbb::global_control::max_allowed_parallelism, 16);
     tbb::task_arena A(8); A.initialize();
+    g_main_arena = &A;
     tbb::task_arena small(1, 1); small.initialize(); g_small = &small;
     Keeper keeper(A, 4, 50);
     watchdog_start(WatchdogCfg{}, [&](const HangInfo& hi) {
